@@ -1,4 +1,5 @@
 import Sop.Model.TwoPC
+import Sop.Model.Lifecycle
 /-! # C16 — external two-phase participants follow SOP's commit outcome
 
 All theorems are about `Sop.TwoPC.commit / rollback` for an **arbitrary** list `ps` of attached
@@ -392,5 +393,679 @@ example : (commit sOk [1, 2, 3]).1 =
       ++ ⟨2, .phase2, true⟩ :: [⟨3, .phase2, true⟩] := by decide
 example : (commit sOk [1, 2, 3]).2 = .ok := by decide
 example : (rollback sFail [1, 2, 3]).2 = some 1 := by decide
+
+
+/-! # SOP's side as the real lifecycle (`commitL`, `rollbackL`, `sopCall`)
+
+`SinglePhaseTransaction.HasBegun()` is SOP's own `HasBegun()`, and `common.Transaction` ends itself before it
+returns a phase error. The theorems below are about the model in which SOP's side is that state machine
+(`Sop.TwoPC.sopCall`), for every start state, every work-failure pattern `w`, every participant script `s` and
+every list of participants. `commitL_asIs_refines` says the code as it is never looks at that state, so all the
+theorems above carry over (with SOP's answers computed by the lifecycle); `guard_leaves_participants_in_doubt`
+shows that an early `if !t.HasBegun() { return nil }` in `Rollback` does not. The wrapper's own `committed` flag
+(fix 6c4c66ea; `d`/`done` below, unset on a fresh object) is part of the state: `C16_session` is the session-level
+statement over every sequence of method calls, `legacy_rolls_back_committed_participants` the witness of what the
+code did before that fix. -/
+set_option linter.unusedSimpArgs false
+
+
+
+theorem callUntilFail_congr {s s' : Script} {k : Kind} {ps : List Nat} (h : ∀ p ∈ ps, s p k = s' p k) :
+    callUntilFail s k ps = callUntilFail s' k ps := by
+  induction ps with
+  | nil => rfl
+  | cons a ps ih =>
+    have ha := h a (by simp)
+    have ih' := ih (fun p hp => h p (List.mem_cons_of_mem _ hp))
+    simp [callUntilFail, call, ha, ih']
+
+theorem callAll_congr {s s' : Script} {k : Kind} {ps : List Nat} (h : ∀ p ∈ ps, s p k = s' p k) :
+    callAll s k ps = callAll s' k ps := by
+  simp only [callAll]
+  exact List.map_congr_left (fun p hp => by simp [call, h p hp])
+
+theorem lastFailed_congr {s s' : Script} {k : Kind} {ps : List Nat} (h : ∀ p ∈ ps, s p k = s' p k) :
+    lastFailed s k ps = lastFailed s' k ps := by
+  induction ps with
+  | nil => rfl
+  | cons a ps ih =>
+    have ha := h a (by simp)
+    have ih' := ih (fun p hp => h p (List.mem_cons_of_mem _ hp))
+    simp [lastFailed, ha, ih']
+
+theorem eff_other (w : Work) (s : Script) (ps : List Nat) (σ : SopSt) (h0 : 0 ∉ ps) (k : Kind) :
+    ∀ p ∈ ps, effScript w s ps σ p k = s p k := by
+  intro p hp
+  have : p ≠ 0 := fun e => h0 (e ▸ hp)
+  simp [effScript, this]
+
+theorem tag_toCall (σ : SopSt) (l : List Call) : (tag σ l).map CallL.toCall = l := by
+  simp [tag, CallL.toCall, Function.comp_def]
+
+/-- **Refinement.** One `Commit` of the code as it is, with SOP's side the real lifecycle started in ANY state `σ`
+and any work-failure pattern `w`, makes exactly the calls (and returns exactly the result) of the black-box model
+above run on the script in which SOP answers what the lifecycle answers (`effScript`). So `HasBegun` turning false
+inside a failed phase changes nothing for the participants — every theorem above applies to `commitL .asIs`. -/
+theorem commitL_asIs_refines (w : Work) (s : Script) (ps : List Nat) (σ : SopSt) (h0 : 0 ∉ ps) :
+    ((commitL .asIs w s ps σ false).log.map CallL.toCall, (commitL .asIs w s ps σ false).ret)
+      = commit (effScript w s ps σ) ps := by
+  have e1 := callUntilFail_congr (k := .phase1) (eff_other w s ps σ h0 .phase1)
+  have e2 := callAll_congr (k := .phase2) (eff_other w s ps σ h0 .phase2)
+  have e3 := callAll_congr (k := .rollback) (eff_other w s ps σ h0 .rollback)
+  have e4 := lastFailed_congr (k := .rollback) (eff_other w s ps σ h0 .rollback)
+  have c1 : effScript w s ps σ 0 .phase1 = (sopCall σ .phase1 (w .phase1)).2 := by simp [effScript]
+  have c2 : effScript w s ps σ 0 .phase2 = (sopCall (sopCall σ .phase1 (w .phase1)).1 .phase2 (w .phase2)).2 := by
+    simp [effScript]
+  have c3 : effScript w s ps σ 0 .rollback = (sopCall (if (sopCall σ .phase1 (w .phase1)).2 && (callUntilFail s .phase1 ps).2.isNone
+      then (sopCall (sopCall σ .phase1 (w .phase1)).1 .phase2 (w .phase2)).1 else (sopCall σ .phase1 (w .phase1)).1) .rollback (w .rollback)).2 := by
+    simp [effScript]
+  unfold commit rollback commitL rollbackL sopLogged
+  rw [e1]
+  simp only [callAll, List.map_cons, lastFailed, call, c1, c2, c3]
+  simp only [← callAll.eq_1, e2, e3, e4]
+  cases h1 : (sopCall σ .phase1 (w .phase1)).2
+  · simp [tag_toCall, CallL.toCall]
+  · rcases hc : callUntilFail s .phase1 ps with ⟨l1, _ | p⟩
+    · cases h2 : (sopCall (sopCall σ .phase1 (w .phase1)).1 .phase2 (w .phase2)).2
+      · simp [tag_toCall, CallL.toCall]
+      · simp [tag_toCall, CallL.toCall]
+    · simp [tag_toCall, CallL.toCall]
+
+
+theorem sopCall_rollback_ends (σ : SopSt) (w : Bool) : (sopCall σ .rollback w).1.hasBegun = false := by
+  unfold sopCall
+  simp only
+  split
+  · rename_i h; simp [SopSt.hasBegun, h]
+  · split
+    · rename_i h; simpa using h
+    · simp [SopSt.hasBegun]
+
+theorem sopCall_rollback_committed (σ : SopSt) (w : Bool) : (sopCall σ .rollback w).1.committed = σ.committed := by
+  unfold sopCall
+  simp only
+  split
+  · rfl
+  · split <;> rfl
+
+theorem sopCall_phase1_committed (σ : SopSt) (w : Bool) : (sopCall σ .phase1 w).1.committed = σ.committed := by
+  unfold sopCall
+  simp only
+  split
+  · rfl
+  · split
+    · rfl
+    · rfl
+    · split <;> rfl
+
+theorem sopCall_phase2_ok (σ : SopSt) (w : Bool) (h : (sopCall σ .phase2 w).2 = true) :
+    (sopCall σ .phase2 w).1.committed = true ∧ (sopCall σ .phase2 w).1.hasBegun = false := by
+  unfold sopCall at h ⊢
+  simp only at h ⊢
+  split at h
+  · simp at h
+  · split at h
+    · simp at h
+    · split at h
+      · split at h
+        · simp_all [SopSt.hasBegun]
+        · simp at h
+      · simp_all [SopSt.hasBegun]
+
+theorem sopCall_phase2_fail (σ : SopSt) (w : Bool) (h : (sopCall σ .phase2 w).2 = false) :
+    (sopCall σ .phase2 w).1.committed = σ.committed := by
+  unfold sopCall at h ⊢
+  simp only at h ⊢
+  split
+  · rfl
+  · split
+    · rfl
+    · split
+      · split
+        · simp_all
+        · rfl
+      · simp_all
+
+/-! ## the outcome under the faithful lifecycle -/
+
+theorem filter_none {α : Type} (f : α → Bool) (l : List α) (h : ∀ a ∈ l, f a = false) : l.filter f = [] := by
+  induction l with
+  | nil => rfl
+  | cons a l ih =>
+    have := h a (by simp)
+    simp [List.filter, this, ih (fun b hb => h b (List.mem_cons_of_mem _ hb))]
+
+def isDecision (c : Call) : Bool := c.who != 0 && (c.kind == .phase2 || c.kind == .rollback)
+
+theorem filter_callAll_keep (s : Script) (k : Kind) (ps : List Nat) (h0 : 0 ∉ ps) (hk : k = .phase2 ∨ k = .rollback) :
+    (callAll s k ps).filter isDecision = callAll s k ps := by
+  apply List.filter_eq_self.2
+  intro c hc
+  obtain ⟨p, hp, rfl⟩ := mem_callAll.1 hc
+  have : p ≠ 0 := fun e => h0 (e ▸ hp)
+  rcases hk with rfl | rfl <;> simp [isDecision, this]
+
+theorem decisions_eq (log : List CallL) : decisions log = (log.map CallL.toCall).filter isDecision := rfl
+
+/-- the state SOP's side is left in by one `Commit` (code as it is) -/
+theorem commitL_asIs_state (w : Work) (s : Script) (ps : List Nat) (σ : SopSt) (hc : σ.committed = false) :
+    (commitL .asIs w s ps σ false).st.hasBegun = false ∧
+    ((commitL .asIs w s ps σ false).st.committed = true ↔ (commitL .asIs w s ps σ false).ret = .ok) := by
+  unfold commitL rollbackL sopLogged
+  simp only [reduceCtorEq, false_and, if_false]
+  cases h1 : (sopCall σ .phase1 (w .phase1)).2
+  · simp [sopCall_rollback_ends, sopCall_rollback_committed, sopCall_phase1_committed, hc]
+  · rcases hcu : callUntilFail s .phase1 ps with ⟨l1, _ | p⟩
+    · cases h2 : (sopCall (sopCall σ .phase1 (w .phase1)).1 .phase2 (w .phase2)).2
+      · simp [sopCall_rollback_ends, sopCall_rollback_committed, sopCall_phase2_fail _ _ h2, sopCall_phase1_committed, hc]
+      · simp [sopCall_phase2_ok _ _ h2]
+    · simp [sopCall_rollback_ends, sopCall_rollback_committed, sopCall_phase1_committed, hc]
+
+/-- **The outcome theorem under the faithful lifecycle.** For every list of attached participants (SOP, id 0, not
+among them), every participant script, every pattern of failing SOP work and every start state of SOP's side that
+is not already committed: after one `Commit` SOP's transaction is over (`HasBegun() == false`), and EITHER Commit
+returned `nil`, SOP is committed, and the decision calls the participants received are exactly one `Phase2Commit`
+per attachment, in attachment order; OR Commit returned an error, SOP is not committed, and the decision calls are
+exactly one `Rollback` per attachment, in attachment order. No participant is left after `Phase1Commit` without a
+decision, none gets both, and the decision is SOP's. -/
+theorem outcome_faithful (w : Work) (s : Script) (ps : List Nat) (σ : SopSt) (h0 : 0 ∉ ps) (hc : σ.committed = false) :
+    ((commitL .asIs w s ps σ false).ret = .ok ∧ (commitL .asIs w s ps σ false).st.committed = true ∧
+        (commitL .asIs w s ps σ false).st.hasBegun = false ∧
+        decisions (commitL .asIs w s ps σ false).log = callAll s .phase2 ps) ∨
+    ((commitL .asIs w s ps σ false).ret ≠ .ok ∧ (commitL .asIs w s ps σ false).st.committed = false ∧
+        (commitL .asIs w s ps σ false).st.hasBegun = false ∧
+        decisions (commitL .asIs w s ps σ false).log = callAll s .rollback ps) := by
+  obtain ⟨hb, hcm⟩ := commitL_asIs_state w s ps σ hc
+  have href := commitL_asIs_refines w s ps σ h0
+  have hlog : (commitL .asIs w s ps σ false).log.map CallL.toCall = (commit (effScript w s ps σ) ps).1 := by rw [← href]
+  have hret : (commitL .asIs w s ps σ false).ret = (commit (effScript w s ps σ) ps).2 := by rw [← href]
+  have e2 := callAll_congr (k := .phase2) (eff_other w s ps σ h0 .phase2)
+  have e3 := callAll_congr (k := .rollback) (eff_other w s ps σ h0 .rollback)
+  by_cases hok : (commitL .asIs w s ps σ false).ret = .ok
+  · left
+    refine ⟨hok, hcm.2 hok, hb, ?_⟩
+    rw [decisions_eq, hlog, commit_ok_log _ _ (hret ▸ hok)]
+    simp only [List.filter_cons, List.filter_append]
+    rw [filter_none isDecision (callAll _ .phase1 ps) (by
+      intro c hc; obtain ⟨p, _, rfl⟩ := mem_callAll.1 hc; simp [isDecision]),
+      filter_callAll_keep _ _ _ h0 (Or.inl rfl), e2]
+    simp [isDecision]
+  · right
+    refine ⟨hok, ?_, hb, ?_⟩
+    · cases hcc : (commitL .asIs w s ps σ false).st.committed
+      · rfl
+      · exact absurd (hcm.1 hcc) hok
+    · obtain ⟨pre, c, hl, _, hk, hpre, _⟩ := commit_fail_log (effScript w s ps σ) ps (hret ▸ hok)
+      rw [decisions_eq, hlog, hl]
+      simp only [List.filter_cons, List.filter_append, callAll, List.map_cons]
+      simp only [← callAll.eq_1]
+      rw [filter_none isDecision pre (by
+        intro d hd; have := (hpre d hd).2; simp [isDecision, this]),
+        filter_callAll_keep _ _ _ h0 (Or.inr rfl), e3]
+      have hcd : isDecision c = false := by
+        rcases hk with hk | ⟨_, hw⟩
+        · simp [isDecision, hk]
+        · simp [isDecision, hw]
+      simp only [hcd, Bool.false_eq_true, if_false, List.nil_append]
+      simp [isDecision, call]
+
+
+
+/-- a begun writer -/
+def σW : SopSt := ⟨.forWriting, 0, false⟩
+/-- SOP's phase-2 work fails (e.g. the registry flip), everything else works -/
+def wP2 : Work := fun k => match k with | .phase2 => false | _ => true
+def wP1 : Work := fun k => match k with | .phase1 => false | _ => true
+def sAll : Script := fun _ _ => true
+def wAll : Work := fun _ => true
+
+/-- **The early-return variant leaves participants in doubt.** With `if !t.HasBegun() { return nil }` at the top
+of `SinglePhaseTransaction.Rollback`, a begun writer whose phase-2 work fails (it sets `phaseDone = 2` first, so
+`HasBegun()` is already false when `Commit` calls `t.Rollback`) makes the calls
+`P0.phase1 P1.phase1 P2.phase1 P0.phase2(failed)` and nothing else: both participants passed `Phase1Commit` and
+receive neither `Phase2Commit` nor `Rollback`. The code as it is rolls both back. -/
+theorem guard_leaves_participants_in_doubt :
+    (commitL .guard wP2 sAll [1, 2] σW false).log =
+      [⟨0, .phase1, true, true⟩, ⟨1, .phase1, true, true⟩, ⟨2, .phase1, true, true⟩, ⟨0, .phase2, false, false⟩] ∧
+    (commitL .guard wP2 sAll [1, 2] σW false).ret = .err 0 .phase2 none ∧
+    decisions (commitL .guard wP2 sAll [1, 2] σW false).log = [] ∧
+    decisions (commitL .asIs wP2 sAll [1, 2] σW false).log = [⟨1, .rollback, true⟩, ⟨2, .rollback, true⟩] := by
+  decide +kernel
+
+
+/-- the order constraint under the faithful lifecycle: a participant's `Phase2Commit` comes only after SOP's
+phase 1, every participant's phase 1 and SOP's phase 2 were called with success, and Commit returns `nil` -/
+theorem phase2_only_after_all_phase1_faithful (w : Work) (s : Script) (ps : List Nat) (σ : SopSt) (h0 : 0 ∉ ps)
+    (pre post : List Call) (p : Nat) (r : Bool) (hp : p ≠ 0)
+    (hlog : (commitL .asIs w s ps σ false).log.map CallL.toCall = pre ++ ⟨p, .phase2, r⟩ :: post) :
+    ⟨0, .phase1, true⟩ ∈ pre ∧ (∀ q ∈ ps, ⟨q, .phase1, true⟩ ∈ pre) ∧ ⟨0, .phase2, true⟩ ∈ pre ∧
+    (∀ c ∈ (commitL .asIs w s ps σ false).log, c.kind ≠ .rollback) ∧ (commitL .asIs w s ps σ false).ret = .ok := by
+  have href := commitL_asIs_refines w s ps σ h0
+  have hl : (commitL .asIs w s ps σ false).log.map CallL.toCall = (commit (effScript w s ps σ) ps).1 := by rw [← href]
+  have hret : (commitL .asIs w s ps σ false).ret = (commit (effScript w s ps σ) ps).2 := by rw [← href]
+  obtain ⟨a, b, c, _, e, f⟩ := phase2_only_after_all_phase1 (effScript w s ps σ) ps pre post p r hp (hl ▸ hlog)
+  refine ⟨a, b, c, ?_, hret ▸ f⟩
+  intro d hd
+  exact e d.toCall (hl ▸ List.mem_map_of_mem hd)
+
+/-! non-vacuity: a begun writer, two participants; both branches of `outcome_faithful` occur, and in the failing
+ones SOP's `HasBegun()` is already false when the rollback fan-out starts -/
+example : (commitL .asIs wAll sAll [1, 2] σW false).ret = .ok ∧
+    decisions (commitL .asIs wAll sAll [1, 2] σW false).log = [⟨1, .phase2, true⟩, ⟨2, .phase2, true⟩] := by decide +kernel
+example : (commitL .asIs wP1 sAll [1, 2] σW false).log =
+    [⟨0, .phase1, false, false⟩, ⟨0, .rollback, true, false⟩, ⟨1, .rollback, true, false⟩, ⟨2, .rollback, true, false⟩] := by
+  decide +kernel
+example : (commitL .asIs wP2 sAll [1, 2] σW false).log =
+    [⟨0, .phase1, true, true⟩, ⟨1, .phase1, true, true⟩, ⟨2, .phase1, true, true⟩, ⟨0, .phase2, false, false⟩,
+     ⟨0, .rollback, true, false⟩, ⟨1, .rollback, true, false⟩, ⟨2, .rollback, true, false⟩] := by decide +kernel
+
+
+
+/-! ## sessions -/
+
+def hasP2 (l : List CallL) : Bool := l.any isP2
+def hasRb (l : List CallL) : Bool := l.any isRb
+
+theorem kinds_callAll (s : Script) (k : Kind) (ps : List Nat) : ∀ c ∈ callAll s k ps, c.kind = k := by
+  intro c hc; obtain ⟨p, _, rfl⟩ := mem_callAll.1 hc; rfl
+
+theorem kinds_cuf (s : Script) (k : Kind) (ps : List Nat) : ∀ c ∈ (callUntilFail s k ps).1, c.kind = k := by
+  induction ps with
+  | nil => simp [callUntilFail]
+  | cons a ps ih =>
+    unfold callUntilFail
+    by_cases ha : s a k = true
+    · simp only [ha, if_true, List.mem_cons]
+      rintro c (rfl | hc)
+      · rfl
+      · exact ih c hc
+    · simp [ha, call]
+
+theorem any_tag (σ : SopSt) (l : List Call) (k : Kind) (f : CallL → Bool) (hk : ∀ c ∈ l, c.kind = k)
+    (hf : ∀ c : CallL, c.kind = k → f c = false) : (tag σ l).any f = false := by
+  simp only [tag, List.any_eq_false, List.mem_map]
+  rintro c ⟨d, hd, rfl⟩
+  simp [hf ⟨d.who, d.kind, d.ok, σ.hasBegun⟩ (hk d hd)]
+
+theorem isP2_kind {c : CallL} {k : Kind} (hk : k ≠ .phase2) (h : c.kind = k) : isP2 c = false := by
+  cases c; simp_all [isP2]
+theorem isRb_kind {c : CallL} {k : Kind} (hk : k ≠ .rollback) (h : c.kind = k) : isRb c = false := by
+  cases c; simp_all [isRb]
+
+theorem cuf_fst_of_eq {s : Script} {k : Kind} {ps : List Nat} {l : List Call} {o : Option Nat}
+    (h : callUntilFail s k ps = (l, o)) : ∀ c ∈ l, c.kind = k := by
+  have := kinds_cuf s k ps; rw [h] at this; exact this
+
+/-- `Begin` tells no participant to commit or to roll back and leaves the flag alone -/
+theorem beginL_facts (w : Work) (s : Script) (ps : List Nat) (σ : SopSt) (d : Bool) :
+    hasP2 (beginL w s ps σ d).log = false ∧ hasRb (beginL w s ps σ d).log = false ∧ (beginL w s ps σ d).done = d ∧
+    (beginL w s ps σ d).st = (sopCall σ .begin (w .begin)).1 := by
+  unfold beginL sopLogged hasP2 hasRb
+  simp only
+  split
+  · refine ⟨?_, ?_, rfl, rfl⟩
+    · simp [isP2, any_tag _ _ .begin isP2 (kinds_cuf s .begin ps) (fun c h => isP2_kind (by decide) h)]
+    · simp [isRb, any_tag _ _ .begin isRb (kinds_cuf s .begin ps) (fun c h => isRb_kind (by decide) h)]
+  · simp [isP2, isRb]
+
+/-- `Rollback` (code as it is) tells nobody to commit, and nobody to roll back once the flag is set -/
+theorem rollbackL_facts (w : Work) (s : Script) (ps : List Nat) (σ : SopSt) (d : Bool) :
+    hasP2 (rollbackOutL .asIs w s ps σ d).log = false ∧ (d = true → hasRb (rollbackOutL .asIs w s ps σ d).log = false) ∧
+    (rollbackOutL .asIs w s ps σ d).done = d ∧
+    (rollbackOutL .asIs w s ps σ d).st = (sopCall σ .rollback (w .rollback)).1 := by
+  unfold rollbackOutL rollbackL sopLogged hasP2 hasRb
+  cases d
+  · simp [isP2, any_tag _ _ .rollback isP2 (kinds_callAll s .rollback ps) (fun c h => isP2_kind (by decide) h)]
+  · simp [isP2, isRb]
+
+
+/-- SOP's transaction has been begun at some point: `phaseDone` is 0, 1 or 2 -/
+def pdOK (σ : SopSt) : Prop := σ.pd = 0 ∨ σ.pd = 1 ∨ σ.pd = 2
+
+theorem sopCall_pdOK (σ : SopSt) (k : Kind) (w : Bool) (h : pdOK σ) : pdOK (sopCall σ k w).1 := by
+  unfold pdOK at h ⊢
+  rcases h with h | h | h <;> cases k <;> cases w <;> cases hm : σ.mode <;>
+    simp [sopCall, SopSt.hasBegun, h, hm]
+
+theorem sopCall_rollback_pd (σ : SopSt) (w : Bool) (h : pdOK σ) : (sopCall σ .rollback w).1.pd = 2 := by
+  rcases h with h | h | h <;> simp [sopCall, SopSt.hasBegun, h]
+
+theorem sopCall_done_stays (σ : SopSt) (k : Kind) (w : Bool) (h : σ.pd = 2) : (sopCall σ k w).1.pd = 2 := by
+  cases k <;> cases w <;> cases hm : σ.mode <;> simp [sopCall, SopSt.hasBegun, h, hm]
+
+theorem sopCall_phase1_done (σ : SopSt) (w : Bool) (h : σ.pd = 2) : (sopCall σ .phase1 w).2 = false := by
+  simp [sopCall, SopSt.hasBegun, h]
+
+/-- what one `Commit` (code as it is) can do to the participants and to the flag -/
+theorem commitL_facts (w : Work) (s : Script) (ps : List Nat) (σ : SopSt) (d : Bool) :
+    ((commitL .asIs w s ps σ d).ret = .ok →
+        (commitL .asIs w s ps σ d).done = true ∧ hasRb (commitL .asIs w s ps σ d).log = false) ∧
+    ((commitL .asIs w s ps σ d).ret ≠ .ok →
+        (commitL .asIs w s ps σ d).done = d ∧ hasP2 (commitL .asIs w s ps σ d).log = false) ∧
+    (d = true → hasRb (commitL .asIs w s ps σ d).log = false) := by
+  unfold commitL rollbackL sopLogged hasP2 hasRb
+  simp only [reduceCtorEq, false_and, if_false]
+  cases h1 : (sopCall σ .phase1 (w .phase1)).2
+  · cases d <;>
+      simp [isP2, isRb, any_tag _ _ .rollback isP2 (kinds_callAll s .rollback ps) (fun c h => isP2_kind (by decide) h)]
+  · rcases hcu : callUntilFail s .phase1 ps with ⟨l1, _ | p⟩
+    · have k1 := cuf_fst_of_eq hcu
+      cases h2 : (sopCall (sopCall σ .phase1 (w .phase1)).1 .phase2 (w .phase2)).2
+      · cases d <;>
+          simp [isP2, isRb, any_tag _ _ .rollback isP2 (kinds_callAll s .rollback ps) (fun c h => isP2_kind (by decide) h),
+            any_tag _ _ .phase1 isP2 k1 (fun c h => isP2_kind (by decide) h),
+            any_tag _ _ .phase1 isRb k1 (fun c h => isRb_kind (by decide) h)]
+      · simp [isP2, isRb, any_tag _ _ .phase2 isRb (kinds_callAll s .phase2 ps) (fun c h => isRb_kind (by decide) h),
+            any_tag _ _ .phase1 isRb k1 (fun c h => isRb_kind (by decide) h)]
+    · have k1 := cuf_fst_of_eq hcu
+      cases d <;>
+        simp [isP2, isRb, any_tag _ _ .rollback isP2 (kinds_callAll s .rollback ps) (fun c h => isP2_kind (by decide) h),
+          any_tag _ _ .phase1 isP2 k1 (fun c h => isP2_kind (by decide) h),
+          any_tag _ _ .phase1 isRb k1 (fun c h => isRb_kind (by decide) h)]
+
+/-- SOP's transaction is over after a `Commit` on a transaction that had been begun -/
+theorem commitL_pd (w : Work) (s : Script) (ps : List Nat) (σ : SopSt) (d : Bool) (h : pdOK σ) :
+    (commitL .asIs w s ps σ d).st.pd = 2 := by
+  have a1 := sopCall_pdOK σ .phase1 (w .phase1) h
+  have a2 := sopCall_pdOK _ .phase2 (w .phase2) a1
+  unfold commitL rollbackL sopLogged
+  simp only [reduceCtorEq, false_and, if_false]
+  cases h1 : (sopCall σ .phase1 (w .phase1)).2
+  · cases d <;> simp [sopCall_rollback_pd _ _ a1]
+  · rcases hcu : callUntilFail s .phase1 ps with ⟨l1, _ | p⟩
+    · cases h2 : (sopCall (sopCall σ .phase1 (w .phase1)).1 .phase2 (w .phase2)).2
+      · cases d <;> simp [sopCall_rollback_pd _ _ a2]
+      · have := (sopCall_phase2_ok _ _ h2).2
+        rcases a2 with e | e | e
+        · simp [SopSt.hasBegun, e] at this
+        · simp [SopSt.hasBegun, e] at this
+        · simpa using e
+    · cases d <;> simp [sopCall_rollback_pd _ _ a1]
+
+/-- a `Commit` on an ended SOP transaction fails -/
+theorem commitL_done_fails (w : Work) (s : Script) (ps : List Nat) (σ : SopSt) (d : Bool) (h : σ.pd = 2) :
+    (commitL .asIs w s ps σ d).ret ≠ .ok := by
+  unfold commitL sopLogged
+  simp [sopCall_phase1_done σ _ h]
+
+
+/-! ### one method call of a session -/
+
+theorem stepL_begin (ps : List Nat) (τ : TxSt) (x : StepL) (hop : x.op = .begin) :
+    hasP2 (stepL .asIs ps τ x).log = false ∧ hasRb (stepL .asIs ps τ x).log = false ∧
+    (stepL .asIs ps τ x).done = τ.done ∧ (pdOK τ.sop → pdOK (stepL .asIs ps τ x).st) := by
+  have hb := beginL_facts x.w x.s ps τ.sop τ.done
+  have e : stepL .asIs ps τ x = beginL x.w x.s ps τ.sop τ.done := by simp [stepL, hop]
+  rw [e]
+  exact ⟨hb.1, hb.2.1, hb.2.2.1, fun h => hb.2.2.2 ▸ sopCall_pdOK _ _ _ h⟩
+
+theorem stepL_rollback (ps : List Nat) (τ : TxSt) (x : StepL) (hop : x.op = .rollback) :
+    hasP2 (stepL .asIs ps τ x).log = false ∧ (τ.done = true → hasRb (stepL .asIs ps τ x).log = false) ∧
+    (stepL .asIs ps τ x).done = τ.done ∧ (pdOK τ.sop → (stepL .asIs ps τ x).st.pd = 2) := by
+  have hb := rollbackL_facts x.w x.s ps τ.sop τ.done
+  have e : stepL .asIs ps τ x = rollbackOutL .asIs x.w x.s ps τ.sop τ.done := by simp [stepL, hop]
+  rw [e]
+  exact ⟨hb.1, hb.2.1, hb.2.2.1, fun h => hb.2.2.2 ▸ sopCall_rollback_pd _ _ h⟩
+
+theorem stepL_commit (ps : List Nat) (τ : TxSt) (x : StepL) (hop : x.op = .commit) :
+    ((stepL .asIs ps τ x).ret = .ok → (stepL .asIs ps τ x).done = true ∧ hasRb (stepL .asIs ps τ x).log = false) ∧
+    ((stepL .asIs ps τ x).ret ≠ .ok → (stepL .asIs ps τ x).done = τ.done ∧ hasP2 (stepL .asIs ps τ x).log = false) ∧
+    (τ.done = true → hasRb (stepL .asIs ps τ x).log = false) ∧
+    (pdOK τ.sop → (stepL .asIs ps τ x).st.pd = 2) := by
+  have hc := commitL_facts x.w x.s ps τ.sop τ.done
+  have e : stepL .asIs ps τ x = commitL .asIs x.w x.s ps τ.sop τ.done := by simp [stepL, hop]
+  rw [e]
+  exact ⟨hc.1, hc.2.1, hc.2.2, fun h => commitL_pd _ _ _ _ _ h⟩
+
+theorem stepL_done_stays (ps : List Nat) (τ : TxSt) (x : StepL) (h : τ.done = true) :
+    (stepL .asIs ps τ x).done = true ∧ hasRb (stepL .asIs ps τ x).log = false := by
+  cases hop : x.op
+  · have := stepL_begin ps τ x hop
+    exact ⟨this.2.2.1.trans h, this.2.1⟩
+  · have := stepL_commit ps τ x hop
+    refine ⟨?_, this.2.2.1 h⟩
+    by_cases hr : (stepL .asIs ps τ x).ret = .ok
+    · exact (this.1 hr).1
+    · exact (this.2.1 hr).1.trans h
+  · have := stepL_rollback ps τ x hop
+    exact ⟨this.2.2.1.trans h, this.2.1 h⟩
+
+/-- within one method call: if a participant is told to commit, the flag is set and nobody is told to roll back -/
+theorem stepL_p2 (ps : List Nat) (τ : TxSt) (x : StepL) (h : hasP2 (stepL .asIs ps τ x).log = true) :
+    (stepL .asIs ps τ x).done = true ∧ hasRb (stepL .asIs ps τ x).log = false := by
+  unfold stepL at h ⊢
+  cases hop : x.op <;> simp only [hop] at h ⊢
+  · simp [(beginL_facts x.w x.s ps τ.sop τ.done).1] at h
+  · have := commitL_facts x.w x.s ps τ.sop τ.done
+    by_cases hr : (commitL .asIs x.w x.s ps τ.sop τ.done).ret = .ok
+    · exact this.1 hr
+    · simp [(this.2.1 hr).2] at h
+  · simp [(rollbackL_facts x.w x.s ps τ.sop τ.done).1] at h
+
+theorem stepL_ended (ps : List Nat) (τ : TxSt) (x : StepL) (h : τ.sop.pd = 2) :
+    (stepL .asIs ps τ x).st.pd = 2 ∧ hasP2 (stepL .asIs ps τ x).log = false := by
+  unfold stepL
+  cases x.op
+  · have := beginL_facts x.w x.s ps τ.sop τ.done
+    exact ⟨by simp [this.2.2.2, sopCall_done_stays _ _ _ h], this.1⟩
+  · exact ⟨commitL_pd _ _ _ _ _ (Or.inr (Or.inr h)),
+      ((commitL_facts x.w x.s ps τ.sop τ.done).2.1 (commitL_done_fails _ _ _ _ _ h)).2⟩
+  · have := rollbackL_facts x.w x.s ps τ.sop τ.done
+    exact ⟨by simp [this.2.2.2, sopCall_done_stays _ _ _ h], this.1⟩
+
+/-! ### whole sessions -/
+
+theorem hasP2_append (a b : List CallL) : hasP2 (a ++ b) = (hasP2 a || hasP2 b) := by simp [hasP2]
+theorem hasRb_append (a b : List CallL) : hasRb (a ++ b) = (hasRb a || hasRb b) := by simp [hasRb]
+
+/-- once the flag is set, no participant is ever told to roll back again -/
+theorem run_done_no_rollback (ps : List Nat) (xs : List StepL) : ∀ τ : TxSt, τ.done = true →
+    hasRb (runL .asIs ps τ xs) = false ∧ (finalL .asIs ps τ xs).done = true := by
+  induction xs with
+  | nil => intro τ h; simp [runL, finalL, hasRb, h]
+  | cons x xs ih =>
+    intro τ h
+    obtain ⟨h1, h2⟩ := stepL_done_stays ps τ x h
+    obtain ⟨h3, h4⟩ := ih (stepL .asIs ps τ x).tx h1
+    simp [runL, finalL, hasRb_append, h2, h3, h4]
+
+/-- once SOP's transaction has ended, no participant is ever told to commit -/
+theorem run_ended_no_phase2 (ps : List Nat) (xs : List StepL) : ∀ τ : TxSt, τ.sop.pd = 2 →
+    hasP2 (runL .asIs ps τ xs) = false := by
+  induction xs with
+  | nil => intro τ _; simp [runL, hasP2]
+  | cons x xs ih =>
+    intro τ h
+    obtain ⟨h1, h2⟩ := stepL_ended ps τ x h
+    simp [runL, hasP2_append, h2, ih (stepL .asIs ps τ x).tx h1]
+
+theorem run_p2_sets_flag (ps : List Nat) (xs : List StepL) : ∀ τ : TxSt,
+    hasP2 (runL .asIs ps τ xs) = true → (finalL .asIs ps τ xs).done = true := by
+  induction xs with
+  | nil => intro τ h; simp [runL, hasP2] at h
+  | cons x xs ih =>
+    intro τ h
+    simp only [runL, hasP2_append, Bool.or_eq_true] at h
+    simp only [finalL]
+    rcases h with h | h
+    · exact (run_done_no_rollback ps xs _ (stepL_p2 ps τ x h).1).2
+    · exact ih _ h
+
+/-- **A participant told to commit is never told to roll back afterwards** — for every start state of the object,
+every sequence of `Begin`/`Commit`/`Rollback` calls, each with its own failures of SOP's work and of the
+participants: if some participant is told `Phase2Commit` during the calls `xs`, then no participant is told
+`Rollback` during any later calls `ys` on the same object, nor inside the method call that told it to commit. -/
+theorem session_committed_never_rolled_back (ps : List Nat) (τ : TxSt) (xs ys : List StepL)
+    (h : hasP2 (runL .asIs ps τ xs) = true) :
+    hasRb (runL .asIs ps (finalL .asIs ps τ xs) ys) = false ∧
+    ∀ τ' x, hasP2 (stepL .asIs ps τ' x).log = true → hasRb (stepL .asIs ps τ' x).log = false :=
+  ⟨(run_done_no_rollback ps ys _ (run_p2_sets_flag ps xs τ h)).1, fun τ' x h' => (stepL_p2 ps τ' x h').2⟩
+
+/-- The session-level reading of the property: on an object whose SOP transaction has been begun (`phaseDone` 0, 1
+or 2) and whose `Commit` has not yet succeeded, over every sequence of `Begin`/`Commit`/`Rollback` calls — each with
+its own pattern of failing SOP work and its own participant answers — the session never contains both a participant's
+`Phase2Commit` and a participant's `Rollback` (in either order, for the same or for different participants). -/
+def Statement_C16_session : Prop :=
+  ∀ (ps : List Nat) (τ : TxSt) (xs : List StepL), pdOK τ.sop → τ.done = false →
+    ¬ (hasP2 (runL .asIs ps τ xs) = true ∧ hasRb (runL .asIs ps τ xs) = true)
+
+/-- **Nobody is told both to commit and to roll back** (code with fix 6c4c66ea). -/
+theorem C16_session : Statement_C16_session := by
+  intro ps τ xs
+  induction xs generalizing τ with
+  | nil => intro _ _ h; simp [runL, hasP2] at h
+  | cons x xs ih =>
+    intro hpd hd
+    simp only [runL, hasP2_append, hasRb_append]
+    cases hop : x.op
+    · -- Begin
+      obtain ⟨a, b, c, e⟩ := stepL_begin ps τ x hop
+      have := ih (stepL .asIs ps τ x).tx (e hpd) (c.trans hd)
+      rw [a, b]
+      simpa using this
+    · -- Commit
+      obtain ⟨a, b, _, e⟩ := stepL_commit ps τ x hop
+      by_cases hr : (stepL .asIs ps τ x).ret = .ok
+      · have h1 := run_done_no_rollback ps xs (stepL .asIs ps τ x).tx (a hr).1
+        rw [(a hr).2, h1.1]
+        simp
+      · have h1 := run_ended_no_phase2 ps xs (stepL .asIs ps τ x).tx (e hpd)
+        rw [(b hr).2, h1]
+        simp
+    · -- Rollback
+      obtain ⟨a, _, _, e⟩ := stepL_rollback ps τ x hop
+      have h1 := run_ended_no_phase2 ps xs (stepL .asIs ps τ x).tx (e hpd)
+      rw [a, h1]
+      simp
+
+/-! non-vacuity of `C16_session`, and what the hypotheses exclude -/
+def stAll (o : OpL) : StepL := ⟨o, wAll, sAll⟩
+/-- a fresh, begun writer -/
+def τW : TxSt := ⟨σW, false⟩
+example : pdOK τW.sop ∧ τW.done = false := ⟨Or.inl rfl, rfl⟩
+example : hasP2 (runL .asIs [1] τW [stAll .commit, stAll .rollback]) = true ∧
+    hasRb (runL .asIs [1] τW [stAll .commit, stAll .rollback]) = false := by decide +kernel
+example : hasRb (runL .asIs [1] τW [⟨.commit, wP2, sAll⟩, stAll .rollback, stAll .commit]) = true ∧
+    hasP2 (runL .asIs [1] τW [⟨.commit, wP2, sAll⟩, stAll .rollback, stAll .commit]) = false := by decide +kernel
+
+/-- **Legacy witness (findings C16-F1 and C16-F2, repaired by 6c4c66ea).** Before the fix, `Begin`, `Commit` (nil),
+then a deferred `Rollback` — or a second `Commit` — told the committed participant to roll back. -/
+theorem legacy_rolls_back_committed_participants :
+    runL .legacy [1] ⟨⟨.forWriting, -1, false⟩, false⟩ [stAll .begin, stAll .commit, stAll .rollback] =
+      [⟨0, .begin, true, true⟩, ⟨1, .begin, true, true⟩,
+       ⟨0, .phase1, true, true⟩, ⟨1, .phase1, true, true⟩, ⟨0, .phase2, true, false⟩, ⟨1, .phase2, true, false⟩,
+       ⟨0, .rollback, false, false⟩, ⟨1, .rollback, true, false⟩] ∧
+    runL .asIs [1] ⟨⟨.forWriting, -1, false⟩, false⟩ [stAll .begin, stAll .commit, stAll .rollback] =
+      [⟨0, .begin, true, true⟩, ⟨1, .begin, true, true⟩,
+       ⟨0, .phase1, true, true⟩, ⟨1, .phase1, true, true⟩, ⟨0, .phase2, true, false⟩, ⟨1, .phase2, true, false⟩,
+       ⟨0, .rollback, false, false⟩] ∧
+    hasRb (runL .legacy [1] ⟨⟨.forWriting, -1, false⟩, false⟩ [stAll .begin, stAll .commit, stAll .commit]) = true ∧
+    hasRb (runL .asIs [1] ⟨⟨.forWriting, -1, false⟩, false⟩ [stAll .begin, stAll .commit, stAll .commit]) = false := by
+  decide +kernel
+
+/-- Why `C16_session` asks for a begun transaction: a `Rollback` on an object that was never begun still fans out
+(SOP's own `Rollback` refuses: "no transaction to rollback"), and the same object can then be begun and committed.
+Those `Rollback` calls reach participants that had not been begun. -/
+theorem rollback_before_begin_then_commit :
+    hasRb (runL .asIs [1] ⟨⟨.forWriting, -1, false⟩, false⟩ [stAll .rollback, stAll .begin, stAll .commit]) = true ∧
+    hasP2 (runL .asIs [1] ⟨⟨.forWriting, -1, false⟩, false⟩ [stAll .rollback, stAll .begin, stAll .commit]) = true := by
+  decide +kernel
+
+/-! ## the SOP side above is the lifecycle of C14's model
+
+`Sop.Lifecycle` (property C14) is the model of `common.Transaction` that is diffed against the real transaction on
+every lifecycle call with and without failing backends. Projected to (mode, phaseDone, committed) and "returned
+nil", its `Begin`, `Phase1Commit`, `Phase2Commit` and `Rollback` — including their failing variants — are exactly
+`sopCall` with a suitable `w`. -/
+open Sop.Lifecycle in
+def projMode : Lifecycle.Mode → TwoPC.Mode
+  | .noCheck => .noCheck | .forWriting => .forWriting | .forReading => .forReading
+
+def proj (s : Lifecycle.St) : SopSt := ⟨projMode s.mode, s.pd, s.committed⟩
+
+theorem proj_hasBegun (s : Lifecycle.St) : (proj s).hasBegun = s.hasBegun := rfl
+
+theorem rollbackCore_proj (s : Lifecycle.St) : proj (Lifecycle.rollbackCore s).1 = proj s := by
+  unfold Lifecycle.rollbackCore
+  split <;> rfl
+
+theorem rollbackCore_mode (s : Lifecycle.St) : (Lifecycle.rollbackCore s).1.mode = s.mode := by
+  unfold Lifecycle.rollbackCore; split <;> rfl
+theorem rollbackCore_pd (s : Lifecycle.St) : (Lifecycle.rollbackCore s).1.pd = s.pd := by
+  unfold Lifecycle.rollbackCore; split <;> rfl
+theorem rollbackCore_committed (s : Lifecycle.St) : (Lifecycle.rollbackCore s).1.committed = s.committed := by
+  unfold Lifecycle.rollbackCore; split <;> rfl
+
+theorem lifecycle_begin_sim (s : Lifecycle.St) :
+    (proj (Lifecycle.beginTx s).1, (Lifecycle.beginTx s).2.1.isOk) = sopCall (proj s) .begin true := by
+  unfold Lifecycle.beginTx sopCall
+  simp only [proj_hasBegun]
+  split
+  · rfl
+  · split
+    · rename_i h; simp [proj, h, Lifecycle.Res.isOk]
+    · rename_i h; simp [proj, h, Lifecycle.Res.isOk]
+
+theorem lifecycle_rollback_sim (s : Lifecycle.St) (fx : Lifecycle.Fx) :
+    (proj (Lifecycle.rollbackTxF s fx).st, (Lifecycle.rollbackTxF s fx).res.isOk) = sopCall (proj s) .rollback (!fx.undo) := by
+  unfold Lifecycle.rollbackTxF Lifecycle.rollbackTx Lifecycle.R.ofOut sopCall
+  simp only [proj_hasBegun]
+  by_cases h2 : s.pd = 2
+  · have : (proj s).pd = 2 := h2
+    simp only [h2, this, if_true]
+    cases hc : s.committed <;> simp [proj, hc, Lifecycle.Res.isOk, h2]
+  · have : ¬ (proj s).pd = 2 := h2
+    simp only [h2, this, if_false]
+    by_cases hb : s.hasBegun = true
+    · simp only [hb, Bool.not_true, Bool.false_eq_true, if_false]
+      cases hu : fx.undo <;> simp [rollbackCore_mode, rollbackCore_pd, rollbackCore_committed, proj, Lifecycle.Res.isOk]
+    · have hb' : s.hasBegun = false := by simpa using hb
+      simp [hb', Lifecycle.Res.isOk]
+
+theorem lifecycle_phase2_sim (s : Lifecycle.St) (work : Bool) :
+    (proj (Lifecycle.phase2TxF s work).st, (Lifecycle.phase2TxF s work).res.isOk) = sopCall (proj s) .phase2 (!work) := by
+  unfold Lifecycle.phase2TxF Lifecycle.phase2Tx Lifecycle.R.ofOut sopCall
+  simp only [proj_hasBegun]
+  by_cases hb : ¬ s.hasBegun = true
+  · have hb' : s.hasBegun = false := by simpa using hb
+    simp [hb', Lifecycle.Res.isOk]
+  · have hb : s.hasBegun = true := by simpa using hb
+    simp only [hb, Bool.not_true, Bool.false_eq_true, if_false]
+    by_cases h0 : s.pd = 0
+    · have : (proj s).pd = 0 := h0
+      simp [h0, this, Lifecycle.Res.isOk]
+    · have : ¬ (proj s).pd = 0 := h0
+      simp only [h0, this, if_false]
+      cases hm : s.mode <;> cases work <;> simp [proj, projMode, hm, hb, h0, rollbackCore_mode, rollbackCore_pd, rollbackCore_committed, Lifecycle.Res.isOk]
+
+theorem lifecycle_phase1_sim (s : Lifecycle.St) (fx : Lifecycle.Fx) :
+    (proj (Lifecycle.phase1TxF s fx).st, (Lifecycle.phase1TxF s fx).res.isOk)
+      = sopCall (proj s) .phase1 (Lifecycle.phase1TxF s fx).res.isOk := by
+  unfold Lifecycle.phase1TxF Lifecycle.phase1Tx Lifecycle.R.ofOut sopCall
+  simp only [proj_hasBegun]
+  by_cases hb : ¬ s.hasBegun = true
+  · have hb' : s.hasBegun = false := by simpa using hb
+    simp [hb', Lifecycle.Res.isOk]
+  · have hb : s.hasBegun = true := by simpa using hb
+    simp only [hb, Bool.not_true, Bool.false_eq_true, if_false]
+    cases hm : s.mode
+    · simp [proj, projMode, hm, Lifecycle.Res.isOk]
+    · simp only [proj, projMode, hm]
+      by_cases hw : (fx.work && Lifecycle.p1Works s) = true
+      · simp [hw, rollbackCore_mode, rollbackCore_pd, rollbackCore_committed, proj, projMode, hm, Lifecycle.Res.isOk]
+      · simp only [hw, if_false, Bool.false_eq_true]
+        unfold Lifecycle.phase1Writer
+        cases hbk : s.backend with
+        | none => simp [Lifecycle.Res.isOk, hm]
+        | some b =>
+          simp only
+          cases ht : b.tracked
+          · simp [Lifecycle.Res.isOk, hm]
+          · cases hp : s.p1Nodes <;> simp [Lifecycle.Res.isOk, hm, hp]
+    · simp only [proj, projMode, hm]
+      by_cases hw : (fx.work && Lifecycle.readerWorks s) = true
+      · simp [hw, Lifecycle.Res.isOk]
+      · simp [hw, Lifecycle.Res.isOk, hm]
+
 
 end Sop.C16
